@@ -4,6 +4,9 @@
 #include <glm/matrix.hpp>
 #include <glm/gtc/matrix_access.hpp>
 #include <glm/ext/matrix_integer.hpp>
+#define GLM_ENABLE_EXPERIMENTAL
+#include <glm/gtx/matrix_operation.hpp>
+#include <glm/gtx/matrix_major_storage.hpp>
 using namespace vt;
 
 #ifndef C02_QUAL
@@ -47,6 +50,19 @@ EW_M(e_postinc_m, auto B = A++; out_mat(c, A); out_mat(c, B)) EW_M(e_postdec_m, 
 // ---- constructors / conversions
 template<class S, class Tag, int Cn, int Rn, int C2, int R2> static void e_conv(Ctx<S>& c) { auto A = in_mat<C2, R2, TY, Q>(c, 0); glm::mat<Cn, Rn, TY, Q> M(A); out_mat(c, M); }
 template<class S, class Tag, int Cn, int Rn> static void e_diag(Ctx<S>& c) { TY s = c.template in<TY>(0, 0); glm::mat<Cn, Rn, TY, Q> M(s); out_mat(c, M); }
+// ---- gtx/matrix_operation diagonalCxR, gtx/matrix_major_storage rowMajorN / colMajorN (from vectors and from a matrix)
+template<int Cn, int Rn> struct GDiag;
+#define GD(Cn, Rn) template<> struct GDiag<Cn, Rn> { template<class V> static auto go(V const& v) { return glm::diagonal##Cn##x##Rn(v); } };
+GD(2, 2) GD(2, 3) GD(2, 4) GD(3, 2) GD(3, 3) GD(3, 4) GD(4, 2) GD(4, 3) GD(4, 4)
+template<class S, class Tag, int Cn, int Rn> static void e_gdiag(Ctx<S>& c) { auto v = in_vec<(Cn < Rn ? Cn : Rn), TY, Q>(c, 0); out_mat(c, GDiag<Cn, Rn>::go(v)); }
+template<class S, class Tag, int N> static void e_rowmajor_v(Ctx<S>& c) { auto a = in_vec<N, TY, Q>(c, 0); auto b = in_vec<N, TY, Q>(c, 1); auto d = in_vec<N, TY, Q>(c, 2); auto e = in_vec<N, TY, Q>(c, 3);
+	if constexpr (N == 2) out_mat(c, glm::rowMajor2(a, b)); else if constexpr (N == 3) out_mat(c, glm::rowMajor3(a, b, d)); else out_mat(c, glm::rowMajor4(a, b, d, e)); }
+template<class S, class Tag, int N> static void e_colmajor_v(Ctx<S>& c) { auto a = in_vec<N, TY, Q>(c, 0); auto b = in_vec<N, TY, Q>(c, 1); auto d = in_vec<N, TY, Q>(c, 2); auto e = in_vec<N, TY, Q>(c, 3);
+	if constexpr (N == 2) out_mat(c, glm::colMajor2(a, b)); else if constexpr (N == 3) out_mat(c, glm::colMajor3(a, b, d)); else out_mat(c, glm::colMajor4(a, b, d, e)); }
+template<class S, class Tag, int N> static void e_rowmajor_m(Ctx<S>& c) { auto A = in_mat<N, N, TY, Q>(c, 0);
+	if constexpr (N == 2) out_mat(c, glm::rowMajor2(A)); else if constexpr (N == 3) out_mat(c, glm::rowMajor3(A)); else out_mat(c, glm::rowMajor4(A)); }
+template<class S, class Tag, int N> static void e_colmajor_m(Ctx<S>& c) { auto A = in_mat<N, N, TY, Q>(c, 0);
+	if constexpr (N == 2) out_mat(c, glm::colMajor2(A)); else if constexpr (N == 3) out_mat(c, glm::colMajor3(A)); else out_mat(c, glm::colMajor4(A)); }
 // ---- row / column access (gtc/matrix_access)
 template<class S, class Tag, int Cn, int Rn, int I> static void e_colget(Ctx<S>& c) { auto A = in_mat<Cn, Rn, TY, Q>(c, 0); out_vec(c, glm::column(A, I)); }
 template<class S, class Tag, int Cn, int Rn, int I> static void e_rowget(Ctx<S>& c) { auto A = in_mat<Cn, Rn, TY, Q>(c, 0); out_vec(c, glm::row(A, I)); }
@@ -77,6 +93,8 @@ template<class Tag, int Cn, int Rn, int C2> static void reg_mm() {
 template<class Tag, int N> static void reg_sq() {
 #define ARGS N
 	ADD("muleq_mm", (std::initializer_list<int>{N}), e_muleq_mm, 3);
+	ADD("rowmajorv", (std::initializer_list<int>{N}), e_rowmajor_v, 1); ADD("colmajorv", (std::initializer_list<int>{N}), e_colmajor_v, 1);
+	ADD("rowmajorm", (std::initializer_list<int>{N}), e_rowmajor_m, 1); ADD("colmajorm", (std::initializer_list<int>{N}), e_colmajor_m, 1);
 #undef ARGS
 }
 template<class Tag, int Cn, int Rn> static void reg_shape(bool full) {
@@ -91,7 +109,7 @@ template<class Tag, int Cn, int Rn> static void reg_shape(bool full) {
 	if (Cn == Rn) { ADD("add_sm", D, e_add_sm, fl); ADD("sub_sm", D, e_sub_sm, fl); } ADD("mul_sm", D, e_mul_sm, fl); ADD("div_sm", D, e_div_sm, fl);
 	ADD("neg_m", D, e_neg_m, fl); ADD("pos_m", D, e_pos_m, fl);
 	ADD("preinc_m", D, e_preinc_m, fl); ADD("predec_m", D, e_predec_m, fl); ADD("postinc_m", D, e_postinc_m, fl); ADD("postdec_m", D, e_postdec_m, fl);
-	if (full) { ADD("transpose", D, e_transpose, 1); ADD("diag", D, e_diag, 1); ADD("eq_mm", D, e_eq_mm, 1); ADD("ne_mm", D, e_ne_mm, 1); }
+	if (full) { ADD("transpose", D, e_transpose, 1); ADD("diag", D, e_diag, 1); ADD("gdiag", D, e_gdiag, 1); ADD("eq_mm", D, e_eq_mm, 1); ADD("ne_mm", D, e_ne_mm, 1); }
 #undef ARGS
 	reg_mm<Tag, Cn, Rn, 2>(); reg_mm<Tag, Cn, Rn, 3>(); reg_mm<Tag, Cn, Rn, 4>();
 	if (full) {
